@@ -142,6 +142,8 @@ type c22ExpSeries struct {
 	Name   string
 	Tags   map[string]string
 	Groups [][]c22ExpRow
+	// EndsAtEpoch: integral input whose last point has timestamp 0 (names a finding's trigger).
+	EndsAtEpoch bool
 	// Optional: the series has input values but the function yields no value in any window
 	// (percentile index out of range everywhere): emitted as all-null rows or not at all.
 	Optional bool
@@ -1156,6 +1158,7 @@ func c22EvalXform(q *c22Query, g *c22Group, exp *c22Expect) *c22ExpSeries {
 		// although their WHERE clause has a lower bound: both accepted.
 		if in[len(in)-1].T == 0 && len(in) > 1 {
 			exp.Notes["integral_last_point_at_epoch"] = "true"
+			s.EndsAtEpoch = true
 		}
 		row := c22ExpRow{TAlts: []int64{q.TLo, 0}, Cells: []c22ExpCell{c22One(outs[0].C)}}
 		if len(in) == 1 {
